@@ -167,7 +167,7 @@ func (l *ledGen) makeTx(ins []gCoin, kind string) *gTx {
 		}
 		inSpecs = append(inSpecs, spec)
 	}
-	fee := int64(l.r.Intn(3))
+	fee := int64(l.r.Intn(3)) * 1000
 	if fee > total {
 		fee = 0
 	}
@@ -298,7 +298,7 @@ func (l *ledGen) buildBlock(parent string) *gBlock {
 	cb := &gTx{name: fmt.Sprintf("C%d", l.nTx), cb: true}
 	ncb := 1 + l.r.Intn(2)
 	for i := 0; i < ncb; i++ {
-		cb.outs = append(cb.outs, fmt.Sprintf("%s:%d", l.anyDest(), 100+l.r.Int63n(900)))
+		cb.outs = append(cb.outs, fmt.Sprintf("%s:%d", l.anyDest(), (100+l.r.Int63n(900))*1000000))
 	}
 	cb.line = fmt.Sprintf("tx %s %d cb %s", cb.name, l.nTx, strings.Join(cb.outs, ";"))
 	l.define(cb)
@@ -522,6 +522,26 @@ func (l *ledGen) observe(full bool) {
 	}
 	if full {
 		l.op("q-pend", "pend")
+	}
+	// withdrawal / spend drafts built by the wallet: the sequence value of the input (C10)
+	if len(l.queue) == 0 && l.r.Intn(3) == 0 {
+		for _, c := range sortedCoins(l.tip().utxo) {
+			w := l.owner[c.addr]
+			if w == "" || c.amt < 1000000 || c.cls == "raw" {
+				continue
+			}
+			if c.cls == "std" && l.r.Intn(6) > 0 {
+				continue
+			}
+			lt := 0
+			if l.r.Intn(2) == 0 {
+				lt = 1 + l.r.Intn(500)
+			}
+			l.op("q-wseq-"+c.cls, "wseq %s %s %d", w, c.key(), lt)
+			if l.r.Intn(2) == 0 {
+				break
+			}
+		}
 	}
 }
 
